@@ -5,7 +5,10 @@
 //! tonic clients (`Endpoint::connect_with_connector`), on a current-thread runtime with paused time.
 //!
 //! Case grammar (space separated):
-//!   sc <g|n> b<duplex buffer> p<payload bytes> a<0|1 max_connection_age configured> <step>*
+//!   sc[:<generator stream label, not interpreted>] <g|n> b<duplex buffer> p<payload bytes>
+//!      a<0|1 max_connection_age configured> <step>*
+//!      (g = serve_with_incoming_shutdown, n = serve_with_incoming; requests and response messages
+//!       are p bytes; the duplex buffer size sets the transport fragmentation)
 //!   step (optionally suffixed `~<k>`: only k scheduler yields follow instead of a full settle):
 //!     C            offer a connection (index = order of offering) and connect a client over it
 //!     U<c>:<s>     start a unary call on connection c; handler will answer status s (0 = OK + message)
@@ -17,12 +20,20 @@
 //!     D<c>         the client drops connection c (and abandons its calls)
 //!     X<k>         the client abandons call k
 //!     T            virtual time passes max_connection_age
-//!   After the script: step n = all handlers free-run (drain); step n+1 = every client is dropped.
+//!   D, X and T must follow and be quiescent steps.
+//!   After the script: all handlers free-run (drain), quiescent point, then every client is dropped.
 //!
-//! Observed (step indices; `-` = never):
+//! Time = number of quiescent points passed (a quiescent point = the paused-clock runtime went idle:
+//! `sleep(1ms)` only returns once no task is runnable).  Steps joined by `~k` share one instant.
+//!
+//! Observed (times; `-` = never):
 //!   R<resolvedAt>:<open server IOs at that instant (`*` in mode n)>:<ok|err>
 //!   c<i>:<accepted 0|1>:<server IO dropped at>
 //!   k<j>:<handler started 0|1>:<headers 0|1|bad>:<good messages|bad>:<status s<code>|s<code>!|->:<client done at>
+//!        (`s<code>!` = status text is not the handler's; message contents, the `x-k` response
+//!         header and the status text are all checked per call)
+//!   k<j>:0:0:0:ns:-   the server never saw the call (whatever local error the client got)
+//!   hang              the virtual-time watchdog fired
 use crate::common::*;
 use bytes::{Buf, BufMut};
 use std::future::Future;
